@@ -221,9 +221,10 @@ def _install():
     _reg("catch", "any", lambda c: A(c.source("num", "other")) if c.coin() else A(c.cb(c.memo(lambda e, src: c.inner()))), "recover")
     _reg("on_error_resume_next", "any", lambda c: A(c.source("num", "other")), "recover")
     # the continuation given as a factory (called with the error, or None): the factory is a user function - when it raises,
-    # the pipeline fails with that exception (nothing is left to resume with), so this entry is not "recover"
+    # the pipeline fails with that exception (nothing is left to resume with); it does resume after a failure of an operator
+    # UPSTREAM of it ("recover_upstream": the pipeline is strict only when this entry comes first)
     _reg("on_error_resume_next_factory", "any", lambda c: (lambda src: A(c.cb(lambda e=None: src)))(c.source("num", "other")),
-         real="on_error_resume_next")
+         "recover_upstream", real="on_error_resume_next")
     _reg("repeat", "any", lambda c: A(c.rnd.randint(0, 2)), "recover")
     _reg("retry", "any", lambda c: A(c.rnd.randint(1, 2)), "recover")
     _reg("while_do", "any", lambda c: A(c.cb(lambda _: c.rnd.random() < 0.4)), "recover")
